@@ -29,7 +29,7 @@ from mc.ref import filters as RF
 
 ID = "C10"
 LEVEL = "exploration"
-BUDGET = {"quick": 300, "thorough": 900}
+BUDGET = {"quick": 300, "thorough": 3600}
 CHUNK = 4
 RULE = (
     "cases = blocks of 243..1024 consecutive maps of the complete enumeration of small maps (each map x each filter "
